@@ -654,7 +654,12 @@ func cliRepair(c *fw.Ctx) {
 			tab = append(tab, gts.Feature{Key: []string{"gene", "CDS", "exon"}[rr.Intn(3)], Loc: gts.PartialRange(s, e, pt), Props: p})
 		}
 		if rr.Intn(3) > 0 {
-			tab = append(tab, gts.Feature{Key: "source", Loc: gts.Range(0, L), Props: gts.Props{{"label", "src"}, {"organism", "synthetic construct"}, {"mol_type", "other DNA"}}})
+			sp := gts.Props{{"label", "src"}, {"organism", "synthetic construct"}, {"mol_type", "other DNA"}}
+			if rr.Intn(2) == 0 {
+				// the same qualifier given twice, word for word, and once more.
+				sp = append(sp, []string{"db_xref", "taxon:32630", "taxon:32630", "ATCC:1"})
+			}
+			tab = append(tab, gts.Feature{Key: "source", Loc: gts.Range(0, L), Props: sp})
 			c.Bucket("cli:repair source feature")
 		}
 		gb := seqio.GenBank{Fields: seqio.GenBankFields{LocusName: "REP", Molecule: gts.DNA, Topology: gts.Linear, Division: "SYN",
@@ -715,6 +720,20 @@ func cliRepair(c *fw.Ctx) {
 		}
 		if it%3 == 0 {
 			cliCacheTwin(c, env, "cli:repair", enc, nil, []string{"repair"}, s2)
+		}
+		// gts repair on a stream whose last record has no features: every record
+		// comes out.
+		if it%2 == 0 {
+			bare := seqio.GenBank{Fields: seqio.GenBankFields{LocusName: "BARE", Molecule: gts.DNA, Topology: gts.Linear, Division: "SYN",
+				Date: seqio.Date{Year: 2022, Month: 5, Day: 6}, Definition: "no features", Accession: "BARE1", Version: "BARE1.1"}, Origin: seqio.NewOrigin([]byte("acgtacgtac"))}
+			st := append(append([]byte{}, s2...), bare.String()...)
+			if so, ok := run([]string{"repair"}, st); ok {
+				c.Bucket("cli:repair stream ending in a record without features")
+				if rs, err := parseOut(so); err != nil || len(rs) != 2 {
+					c.Violate("cli:repair-pipeline:stream-records-lost", enc, "2 records", fmt.Sprintf("%d records err=%v", len(rs), err))
+					continue
+				}
+			}
 		}
 		outs, err := parseOut(s3)
 		if err != nil || len(outs) != 1 {
@@ -907,10 +926,16 @@ func cliFormatPlumbing(c *fw.Ctx, env *cli.Env) {
 		rr := rand.New(rand.NewSource(seed))
 		cmd := cmds[it%len(cmds)]
 		var stdin bytes.Buffer
-		for i, k := 0, 1+rr.Intn(2); i < k; i++ {
+		var single [][]byte
+		for i, k := 0, 1+rr.Intn(3); i < k; i++ {
 			gb, _ := cliRecord(rr, []int{20, 69, 70, 71, 140, 150}[rr.Intn(6)], true)
 			gb.Fields.Version = fmt.Sprintf("PLB%d.1", i)
+			if i > 0 && rr.Intn(2) == 0 {
+				// a later record in which the usual selectors find nothing.
+				gb.Table = nil
+			}
 			stdin.WriteString(gb.String())
+			single = append(single, []byte(gb.String()))
 		}
 		enc := fmt.Sprintf("cli: gts %s with -F / -o variants, seed=%d", strings.Join(cmd, " "), seed)
 		c.Begin(enc)
@@ -925,6 +950,27 @@ func cliFormatPlumbing(c *fw.Ctx, env *cli.Env) {
 		}
 		c.Count(enc, true)
 		c.Bucket("cli:plumbing " + cmd[0])
+		// the commands that map records one by one: the FASTA text of a stream
+		// is the text of its records alone, one after the other.
+		if len(single) > 1 && cmd[0] != "join" && cmd[0] != "sort" && cmd[0] != "pick" {
+			var cat []byte
+			okAll := true
+			for _, one := range single {
+				r1 := env.Run(append(append(append([]string{}, cmd...), "-F", "fasta"), "--no-cache"), one, nil, 60*time.Second)
+				if r1.TimedOut || r1.Exit != 0 {
+					okAll = false
+					break
+				}
+				cat = append(cat, r1.Stdout...)
+			}
+			if okAll {
+				c.Bucket("cli:plumbing stream")
+				if !bytes.Equal(cat, fa.Stdout) {
+					c.Violate("cli:plumbing:stream-differs-from-records-alone:"+cmd[0], enc, string(clipB(cat, 1200)), string(clipB(fa.Stdout, 1200)))
+					continue
+				}
+			}
+		}
 		text := string(fa.Stdout)
 		if len(text) > 0 {
 			got, err, bad := c17read(text, 64)
